@@ -389,21 +389,26 @@ fn ack_races_fan_out(run: &mut Run, quick: bool) {
             let mut bodies: Vec<Box<dyn FnOnce(&std::sync::Arc<Sched>) -> String + Send>> = vec![];
             let mut fut = fut;
             let mut feed = feed;
-            bodies.push(Box::new(move |_s| {
+            bodies.push(Box::new(move |s: &std::sync::Arc<Sched>| {
+                let st = s.seq.fetch_add(1, std::sync::atomic::Ordering::SeqCst);
                 let _ = feed.try_send(msg);
                 let alive = poll_fut(&mut fut);
                 // the loop and its feed stay alive until the execution is judged
                 std::mem::forget(feed);
                 std::mem::forget(fut);
-                format!("loop-{}", if alive { "waiting" } else { "ended" })
+                let en = s.seq.fetch_add(1, std::sync::atomic::Ordering::SeqCst);
+                format!("loop-{}|{}|{}", if alive { "waiting" } else { "ended" }, st, en)
             }));
             for a in ackers.iter() {
                 let dbs = w.node.dbs.clone();
                 let line = format!("ack {} {}", id, w.order[*a]);
-                bodies.push(Box::new(move |_s| {
+                bodies.push(Box::new(move |s: &std::sync::Arc<Sched>| {
+                    let st = s.seq.fetch_add(1, std::sync::atomic::Ordering::SeqCst);
                     let (mut c, _r) = nundb::bo::Client::new_empty_and_receiver();
                     c.auth.store(true, std::sync::atomic::Ordering::SeqCst);
-                    resp_str(&nundb::process_request::process_request(&line, &dbs, &mut c))
+                    let r = resp_str(&nundb::process_request::process_request(&line, &dbs, &mut c));
+                    let en = s.seq.fetch_add(1, std::sync::atomic::Ordering::SeqCst);
+                    format!("{}|{}|{}", r, st, en)
                 }));
             }
             (w, ctx, bodies)
@@ -462,6 +467,28 @@ fn ack_races_fan_out(run: &mut Run, quick: bool) {
                         }
                         if p.count_acknowledged() > p.count_replication() {
                             push("acks-exceed-copies", format!("op {}: {} acks, {} copies", real_id, p.count_acknowledged(), p.count_replication()));
+                        }
+                    }
+                }
+            }
+            // an acknowledgement issued after the fan-out had finished (its call began after the loop's poll returned)
+            // finds its member registered: it must be counted, whatever else runs at the same time
+            let times: Vec<(u64, u64)> = x.results.iter().map(|r| {
+                let r = r.clone().unwrap_or_default();
+                let mut it = r.rsplitn(3, '|');
+                let en = it.next().and_then(|v| v.parse().ok()).unwrap_or(0);
+                let st = it.next().and_then(|v| v.parse().ok()).unwrap_or(0);
+                (st, en)
+            }).collect();
+            if real_id.to_string() == id {
+                for (ai, a) in ackers.iter().enumerate() {
+                    if sent[*a].is_some() && times[ai + 1].0 > times[0].1 {
+                        let counted = match &pend {
+                            None => true,
+                            Some(p) => p.replications.lock().unwrap().get(&w.order[*a]).cloned().unwrap_or(false),
+                        };
+                        if !counted {
+                            push("acknowledgement-issued-after-the-fan-out-not-counted", format!("op {}: the acknowledgement of {} was issued after the fan-out had finished and returned, but the operation is still pending without it ({} of {} acks); schedule {:?}", real_id, w.order[*a], pend.as_ref().map(|p| p.count_acknowledged()).unwrap_or(0), pend.as_ref().map(|p| p.count_replication()).unwrap_or(0), schedule));
                         }
                     }
                 }
